@@ -2,7 +2,7 @@
 # usage: tools/reconfirm_all.sh [names...] -- re-confirm the kept seeded changes against /repo HEAD:
 # patch applies, demo passes without / fails with it, the recorded check reports a violation.
 cd /verif
-names="$*"; [ -z "$names" ] && names=$(ls seeded)
+names="$*"; [ -z "$names" ] && names=$(ls seeded | grep -v "^_")
 for name in $names; do
   d=/verif/seeded/$name
   id=$(echo "$name" | cut -c1-3)
@@ -11,12 +11,12 @@ for name in $names; do
   git -C /repo worktree add -q --detach "$wt" HEAD || exit 3
   cp $d/demo_*.py "$wt/" 2>/dev/null
   demo=$(ls $d | grep '^demo_' | head -1)
-  ( cd "$wt" && PYTHONPATH="$wt:/tmp/seedkit" timeout 600 /venv/bin/python $demo > /tmp/reconf_clean.out 2>&1 ); rc_clean=$?
+  ( cd "$wt" && PYTHONPATH="$wt:/verif/seeded/_kit" timeout 600 /venv/bin/python $demo > /tmp/reconf_clean.out 2>&1 ); rc_clean=$?
   applied=yes
   if ! git -C "$wt" apply "$d/patch.diff" 2>/dev/null; then
     if ! (cd "$wt" && patch -p1 -s --fuzz=3 < "$d/patch.diff" >/dev/null 2>&1); then applied=no; fi
   fi
-  ( cd "$wt" && PYTHONPATH="$wt:/tmp/seedkit" timeout 600 /venv/bin/python $demo > /tmp/reconf_seeded.out 2>&1 ); rc_seeded=$?
+  ( cd "$wt" && PYTHONPATH="$wt:/verif/seeded/_kit" timeout 600 /venv/bin/python $demo > /tmp/reconf_seeded.out 2>&1 ); rc_seeded=$?
   VT4_REPO="$wt" /verif/check "$checkid" quick > /tmp/reconf_check.out 2>&1; rc_check=$?
   nviol=$(grep -c '^VIOLATION' /tmp/reconf_check.out)
   git -C /repo worktree remove --force "$wt"
